@@ -157,6 +157,25 @@ def c16_fallthrough(ctx):
     ctx.cov['evaluations'] += total
 
 
+# ---------------------------------------------------------------- aliasing / evaluation-order corpus
+ALIAS_DIRECTED = [
+    'int g = 1;\nbyte fb() { g = 3; return \'Z\'; }\nint fi() { g = 0; return 90; }\nbool ft() { g = 2; return true; }\n'
+    'empty @is_you(int a, int b) { byte[] buf = [\'a\', \'b\', \'c\', \'d\']; int[] nxt = [11, 22, 33, 44]; bool[] bs = [false, false, false, false];\n'
+    '  g = a; buf[g] = fb(); g = a; nxt[g] = fi(); g = a; bs[g] = ft(); g = b; buf[g] += 1; g = b; nxt[g] += fi(); g = b; nxt[g] *= 2;\n'
+    '  write(buf); for (int i = 0; i < 4; i += 1) { write(nxt[i]); write(\' \'); write(bs[i]); } write(g); }\n',
+    'empty sw(int[] p, int[] q) { int t = p[0]; p[0] = q[1]; q[1] = t; p[1] += q[0]; }\nint touch(int[] p, int k) { p[k] = p[k] + 100; return p[k]; }\n'
+    'empty @is_you(int a, int b) { int[] v = [a, b, 3]; sw(v, v); write(v[0]); write(\' \'); write(v[1]); write(\' \'); v[a] = touch(v, a) + v[a]; write(v[a]); write(\' \'); v[b] += touch(v, b); write(v[b]); int[] w2 = [touch(v, 0), v[0], touch(v, 0)]; write(w2[0] + w2[1] + w2[2]); }\n',
+    'int g = 5;\nint bump() { g = g + 10; return g; }\nbyte bbump() { g = g + 1; return (g is byte); }\nbool tb() { g = g * 2; return g > 20; }\n'
+    'empty @is_you(int a, int b) { write(g + bump()); write(\' \'); write(bump() + g); write(\' \'); write(g + bbump()); write(\' \'); write(g * (bbump() is int)); write(\' \'); write(g < bump()); write(\' \'); write((g > a) and tb()); write(\' \'); write(g - (g + bump())); write(\' \'); write([g, bump(), g][a]); write(\' \'); string s = "abcdefghijklmnopqrstuvwxyzabcdefghijklmnopqrstuvwxyz"; write(s[g - bump() + 12]); write(g); }\n',
+    'string gs = "hello";\nint chg() { gs = "HELLO WORLD"; return 1; }\nbyte[] gb = [\'x\', \'y\', \'z\'];\nint chb() { gb[1] = \'!\'; return 1; }\n'
+    'empty @is_you(int a, int b) { write(gs[chg()]); write(gs.length + chg()); write(gb[chb()]); write(gb[a] is int + chb()); write(gs); write(gb); }\n',
+]
+
+
+def alias_units(ws, stack=300):
+    return [(src, [Cfg((str(a), str(b)), w, stack, False) for a in (0, 1, 2) for b in (1, 2, 0) for w in ws]) for src in ALIAS_DIRECTED]
+
+
 # ---------------------------------------------------------------- byte-granular stack boundary
 FILL_BODIES = [
     ('int g(const int[] q) { return q[0] + q[3]; }\n', 'int[] v = [g([a, b, a, b]), 3, 4, 5, 6]; write(v[0] is byte); write(v[1] is byte); write(v[4] is byte);'),
